@@ -11,7 +11,7 @@ from ..core import Failure
 from ..model import MP, first_diff, arr_close
 
 ID = "C15"
-BUDGET = {"quick": 2400, "thorough": 8000}
+BUDGET = {"quick": 2400, "thorough": 16000}
 TECHNIQUE = ("option settings x operation catalogue x Hypothesis-generated inputs: differential of every call's result "
              "(model value, shape, dtype, or plain value) against the same call under default options; enumeration of "
              "single-option flips (quick) / all 256 boolean settings (thorough) on a fixed program set")
